@@ -141,6 +141,9 @@ pub fn run(sh: &mut Shard, mode: &str, seed: u64, shard: u64, nshards: u64, coun
     let mut p = Profile::for_mode(mode);
     p.min_ops = 6;
     p.max_ops = 30;
+    if crate::run::NO_BULK.with(|b| b.get()) {
+        p.w_bulk = 0;
+    }
     let mut rng = Rng::derive(seed ^ 0xE701_7E, shard);
     let mut corpus: Vec<Entry> = Vec::new();
     let mut seen: HashSet<u64> = HashSet::new();
